@@ -162,26 +162,27 @@ def vS (y x : Nat) : Nat := base + 2 * ((H + 1) * (W + 1)) + y * (W + 1) + x
 def vDH (y x : Nat) : Nat := base + 3 * ((H + 1) * (W + 1)) + y * (W + 1) + x
 def vDV (y x : Nat) : Nat := base + 4 * ((H + 1) * (W + 1)) + y * (W + 1) + x
 
-/-- The block `per` of the generator at one lattice point. -/
-def perF (yx : Nat × Nat) : List Expr :=
+/-- The block `per` of the generator at one lattice point; `D y x` is the degree expression
+`count_true(frame.vertex_neighbors(y, x))` (`dE H W` on the fresh frame). -/
+def perF (D : Nat → Nat → Expr) (yx : Nat × Nat) : List Expr :=
   (if (yx.1 == 0 || yx.1 == H || yx.2 == 0 || yx.2 == W) = true then
       [Expr.node .not [.bvar (vC H W base yx.1 yx.2)]] else []) ++
-    [Expr.node .imp [.node .not [.bvar (vP W base yx.1 yx.2)], .node .eq [dE H W yx.1 yx.2, .litI 0]],
+    [Expr.node .imp [.node .not [.bvar (vP W base yx.1 yx.2)], .node .eq [D yx.1 yx.2, .litI 0]],
      Expr.node .imp [.node .and [.bvar (vP W base yx.1 yx.2), .bvar (vC H W base yx.1 yx.2)],
-        .node .eq [dE H W yx.1 yx.2, .litI 4]]] ++
+        .node .eq [D yx.1 yx.2, .litI 4]]] ++
   if sc = true then
     [Expr.node .imp [.node .and [.bvar (vP W base yx.1 yx.2), .node .not [.bvar (vC H W base yx.1 yx.2)]],
-        .node .eq [dE H W yx.1 yx.2, .litI 2]]]
+        .node .eq [D yx.1 yx.2, .litI 2]]]
   else
     [Expr.node .imp [.node .and [.bvar (vP W base yx.1 yx.2), .node .not [.bvar (vC H W base yx.1 yx.2)]],
-        .node .ge [dE H W yx.1 yx.2, .litI 1]],
+        .node .ge [D yx.1 yx.2, .litI 1]],
      Expr.node .imp [.node .and [.bvar (vP W base yx.1 yx.2), .node .not [.bvar (vC H W base yx.1 yx.2)]],
-        .node .le [dE H W yx.1 yx.2, .litI 2]]]
+        .node .le [D yx.1 yx.2, .litI 2]]]
 
 /-- All local constraints, in emission order. -/
-def localCs : List Expr :=
+def localCs (D : Nat → Nat → Expr) : List Expr :=
   (cells H W).map (fun yx => Expr.node .imp [.bvar (vC H W base yx.1 yx.2), .bvar (vP W base yx.1 yx.2)]) ++
-    ((cells H W).map (perF H W base sc)).flatten ++
+    ((cells H W).map (perF H W base sc D)).flatten ++
     (cells H W).map (fun yx => Expr.node .iff [.bvar (vS H W base yx.1 yx.2),
       .node .and [.bvar (vP W base yx.1 yx.2), .node .not [.bvar (vC H W base yx.1 yx.2)]]]) ++
     (cells H W).map (fun yx => Expr.node .iff [.bvar (vDH H W base yx.1 yx.2), .bvar (vC H W base yx.1 yx.2)]) ++
@@ -258,7 +259,7 @@ theorem cc_ok {prim : Bool} {p : Prog} {ps cr : List Expr}
     ∃ avc, activeVerticesConnected (crossGraph (H + 1) (W + 1)) (gv H W base)
         (base + 5 * ((H + 1) * (W + 1))) false prim = .ok avc ∧
       p = { decls := List.replicate (5 * ((H + 1) * (W + 1))) .bool ++ avc.decls,
-            cs := localCs H W base sc ++ avc.cs } ∧
+            cs := localCs H W base sc (dE H W) ++ avc.cs } ∧
       ps = (List.range ((H + 1) * (W + 1))).map (fun i => Expr.bvar (base + i)) ∧
       cr = (List.range ((H + 1) * (W + 1))).map (fun i => Expr.bvar (base + (H + 1) * (W + 1) + i)) := by
   have eH : (Frame.fresh 0 H W).height = H := rfl
@@ -270,8 +271,8 @@ theorem cc_ok {prim : Bool} {p : Prog} {ps cr : List Expr}
   obtain ⟨avc, havc, h4⟩ := bind_eq_ok.1 h3
   clear h h1 h2 h3
   -- the three `mapM`s
-  have hper' : per = (cells H W).map (perF H W base sc) := by
-    rw [mapM_eq_ok_map (g := perF H W base sc)] at hper
+  have hper' : per = (cells H W).map (perF H W base sc (dE H W)) := by
+    rw [mapM_eq_ok_map (g := perF H W base sc (dE H W))] at hper
     · exact (Except.ok.inj hper).symm
     · intro yx hyx
       exact per_step H W hyx _
@@ -312,7 +313,7 @@ theorem cc_of_avc {prim : Bool} {avc : Prog}
   have eH : (Frame.fresh 0 H W).height = H := rfl
   have eW : (Frame.fresh 0 H W).width = W := rfl
   simp only [connectedCrossable, eH, eW, Nat.add_sub_cancel]
-  refine ⟨_, bind_eq_ok.2 ⟨_, mapM_eq_ok_map (g := perF H W base sc) (fun yx hyx => per_step H W hyx _),
+  refine ⟨_, bind_eq_ok.2 ⟨_, mapM_eq_ok_map (g := perF H W base sc (dE H W)) (fun yx hyx => per_step H W hyx _),
     bind_eq_ok.2 ⟨_, mapM_eq_ok_map (g := fun yx => C14.segExpr 0 H W (.v yx.1 yx.2))
         (fun yx hyx => v_step H W hyx),
       bind_eq_ok.2 ⟨_, mapM_eq_ok_map (g := fun yx => C14.segExpr 0 H W (.h yx.1 yx.2))
@@ -326,15 +327,15 @@ theorem cc_of_avc {prim : Bool} {avc : Prog}
 /-! ### meaning of the local constraints -/
 
 /-- All constraints about one lattice point. -/
-def ptAll (yx : Nat × Nat) : List Expr :=
-  Expr.node .imp [.bvar (vC H W base yx.1 yx.2), .bvar (vP W base yx.1 yx.2)] :: perF H W base sc yx ++
+def ptAll (D : Nat → Nat → Expr) (yx : Nat × Nat) : List Expr :=
+  Expr.node .imp [.bvar (vC H W base yx.1 yx.2), .bvar (vP W base yx.1 yx.2)] :: perF H W base sc D yx ++
    [Expr.node .iff [.bvar (vS H W base yx.1 yx.2),
       .node .and [.bvar (vP W base yx.1 yx.2), .node .not [.bvar (vC H W base yx.1 yx.2)]]],
     Expr.node .iff [.bvar (vDH H W base yx.1 yx.2), .bvar (vC H W base yx.1 yx.2)],
     Expr.node .iff [.bvar (vDV H W base yx.1 yx.2), .bvar (vC H W base yx.1 yx.2)]]
 
-theorem mem_localCs {c : Expr} :
-    c ∈ localCs H W base sc ↔ ∃ yx, yx ∈ cells H W ∧ c ∈ ptAll H W base sc yx := by
+theorem mem_localCs (D : Nat → Nat → Expr) {c : Expr} :
+    c ∈ localCs H W base sc D ↔ ∃ yx, yx ∈ cells H W ∧ c ∈ ptAll H W base sc D yx := by
   simp only [localCs, ptAll, List.mem_append, List.mem_map, List.mem_flatten, List.mem_cons,
     List.not_mem_nil, or_false]
   constructor
@@ -372,9 +373,9 @@ theorem ptok_iff (sc bd P C S DH DV : Bool) (d : Nat) :
     rw [hP, hC, hS, hDH, hDV]
     cases sc <;> cases bd <;> simp at h1 h2 ⊢ <;> omega
 
-theorem pt_eval (H W base : Nat) (sc : Bool) (σ' : Asg) (y x d : Nat)
-    (hd : eval σ' (dE H W y x) = some (.i (d : Int))) :
-    (∀ c ∈ ptAll H W base sc (y, x), eval σ' c = some (.b true)) ↔
+theorem pt_eval (H W base : Nat) (sc : Bool) (D : Nat → Nat → Expr) (σ' : Asg) (y x d : Nat)
+    (hd : eval σ' (D y x) = some (.i (d : Int))) :
+    (∀ c ∈ ptAll H W base sc D (y, x), eval σ' c = some (.b true)) ↔
       PtOK sc (y == 0 || y == H || x == 0 || x == W) (σ'.b (vP W base y x)) (σ'.b (vC H W base y x))
         (σ'.b (vS H W base y x)) (σ'.b (vDH H W base y x)) (σ'.b (vDV H W base y x)) d := by
   unfold ptAll perF PtOK
@@ -404,26 +405,26 @@ theorem border_false {H W y x : Nat} (hy : y ≤ H) (hx : x ≤ W) :
   simp only [Bool.or_eq_false_iff, beq_eq_false_iff_ne, ne_eq]
   omega
 
-/-- (A): the local constraints hold iff the degree rules hold and the auxiliary arrays carry the
-forced values. -/
-theorem local_iff (H W base : Nat) (sc : Bool) (σ' : Asg) :
-    (∀ c ∈ localCs H W base sc, eval σ' c = some (.b true)) ↔
-      DegreeRules H W (segActive (Frame.fresh 0 H W) σ') sc ∧
-      Forced H W base (segActive (Frame.fresh 0 H W) σ') σ' := by
-  have key : (∀ c ∈ localCs H W base sc, eval σ' c = some (.b true)) ↔
+/-- (A), for any degree expressions `D` that evaluate to the point degrees of `act`: the local
+constraints hold iff the degree rules hold and the auxiliary arrays carry the forced values. -/
+theorem local_iff_gen (H W base : Nat) (sc : Bool) (D : Nat → Nat → Expr) (act : LSeg → Bool) (σ' : Asg)
+    (hD : ∀ y x, y ≤ H → x ≤ W → eval σ' (D y x) = some (.i ((pointDegree H W act y x : Nat) : Int))) :
+    (∀ c ∈ localCs H W base sc D, eval σ' c = some (.b true)) ↔
+      DegreeRules H W act sc ∧ Forced H W base act σ' := by
+  have key : (∀ c ∈ localCs H W base sc D, eval σ' c = some (.b true)) ↔
       ∀ y x, y ≤ H → x ≤ W →
         PtOK sc (y == 0 || y == H || x == 0 || x == W) (σ'.b (vP W base y x)) (σ'.b (vC H W base y x))
           (σ'.b (vS H W base y x)) (σ'.b (vDH H W base y x)) (σ'.b (vDV H W base y x))
-          (pointDegree H W (segActive (Frame.fresh 0 H W) σ') y x) := by
+          (pointDegree H W act y x) := by
     constructor
     · intro h y x hy hx
-      rw [← pt_eval H W base sc σ' y x _ (eval_dE H W σ' hy hx)]
+      rw [← pt_eval H W base sc D σ' y x _ (hD y x hy hx)]
       intro c hc
-      exact h c ((mem_localCs H W base sc).2 ⟨(y, x), mem_cells.2 ⟨hy, hx⟩, hc⟩)
+      exact h c ((mem_localCs H W base sc D).2 ⟨(y, x), mem_cells.2 ⟨hy, hx⟩, hc⟩)
     · intro h c hc
-      obtain ⟨⟨y, x⟩, hm, hc⟩ := (mem_localCs H W base sc).1 hc
+      obtain ⟨⟨y, x⟩, hm, hc⟩ := (mem_localCs H W base sc D).1 hc
       obtain ⟨hy, hx⟩ := mem_cells.1 hm
-      exact (pt_eval H W base sc σ' y x _ (eval_dE H W σ' hy hx)).2 (h y x hy hx) c hc
+      exact (pt_eval H W base sc D σ' y x _ (hD y x hy hx)).2 (h y x hy hx) c hc
   rw [key]
   constructor
   · intro h
@@ -434,5 +435,12 @@ theorem local_iff (H W base : Nat) (sc : Bool) (σ' : Asg) :
   · rintro ⟨h1, h2⟩ y x hy hx
     have := h1 y x hy hx
     exact (ptok_iff _ _ _ _ _ _ _ _).2 ⟨⟨this.1, fun h4 => (border_false hy hx).2 (this.2 h4)⟩, h2 y x hy hx⟩
+
+/-- (A) on the fresh frame. -/
+theorem local_iff (H W base : Nat) (sc : Bool) (σ' : Asg) :
+    (∀ c ∈ localCs H W base sc (dE H W), eval σ' c = some (.b true)) ↔
+      DegreeRules H W (segActive (Frame.fresh 0 H W) σ') sc ∧
+      Forced H W base (segActive (Frame.fresh 0 H W) σ') σ' :=
+  local_iff_gen H W base sc (dE H W) _ σ' (fun _ _ hy hx => eval_dE H W σ' hy hx)
 
 end Cspuz.Proofs.C10L1
